@@ -6,13 +6,13 @@ package main
 
 import (
 	"fmt"
-	"sync"
 	"go/ast"
 	"go/token"
 	"go/types"
 	"math/big"
 	"sort"
 	"strings"
+	"sync"
 
 	"golang.org/x/tools/go/packages"
 )
@@ -32,15 +32,15 @@ func (m Mode) String() string {
 }
 
 type Obligation struct {
-	Name   string
-	Kind   string // ensures, requires(call), invariant-entry, invariant-step, decreases, panic, assert, frame, unwind, canary
-	Func   string
-	Text   string // clause / expression source text
-	Pos    string
-	NFacts int
-	PC     *Term
-	Goal   *Term
-	Canary bool // expected sat (vacuity guard)
+	Name    string
+	Kind    string // ensures, requires(call), invariant-entry, invariant-step, decreases, panic, assert, frame, unwind, canary
+	Func    string
+	Text    string // clause / expression source text
+	Pos     string
+	NFacts  int
+	PC      *Term
+	Goal    *Term
+	Canary  bool // expected sat (vacuity guard)
 	Bounded string
 
 	// results
@@ -52,16 +52,18 @@ type Obligation struct {
 }
 
 type VC struct {
-	sortBusy map[string]bool // types whose sort is under construction (cycle guard)
-	monotoneMapStore bool            // the map store being executed is to a `monotone-map` variable
-	catMemo          map[string]*Term // string concatenations already built (functional)
-	splitTail       ast.Stmt // `loop N split`: the switch ending the loop body, whose case ends are separate paths
-	splitTailTarget *target
-	siteHits map[string]int // site directives that matched a statement
-	prog *Prog
-	mode Mode
-	pkg  *packages.Package
-	fn   *FuncInfo // function being verified
+	calledSet        map[string]bool
+	loopEnd          map[token.Pos]token.Pos // directive position of a loop body -> its closing brace
+	sortBusy         map[string]bool         // types whose sort is under construction (cycle guard)
+	monotoneMapStore bool                    // the map store being executed is to a `monotone-map` variable
+	catMemo          map[string]*Term        // string concatenations already built (functional)
+	splitTail        ast.Stmt                // `loop N split`: the switch ending the loop body, whose case ends are separate paths
+	splitTailTarget  *target
+	siteHits         map[string]int // site directives that matched a statement
+	prog             *Prog
+	mode             Mode
+	pkg              *packages.Package
+	fn               *FuncInfo // function being verified
 
 	declOrder []string
 	decls     map[string]string // name -> declaration line
@@ -85,12 +87,12 @@ type VC struct {
 	curFn       *FuncInfo
 	retStack    []*[]*retState
 
-	specAxioms map[string]bool
-	specApps   map[string][]specApp
-	entryArgs  []*Term
-	allowLemma bool
-	siteCall   *ast.CallExpr
-	siteState  *State
+	specAxioms  map[string]bool
+	specApps    map[string][]specApp
+	entryArgs   []*Term
+	allowLemma  bool
+	siteCall    *ast.CallExpr
+	siteState   *State
 	unsupported []string
 
 	runs         []*contractRun
@@ -124,7 +126,7 @@ type VC struct {
 	heapPureMemo map[*FuncInfo]bool
 	afterHavoc   func(*State)
 	heapSorts    map[string]*Sort // every heap name used in this VC
-	pendErr      *types.Var // ghost: some callee has returned a non-nil error (directive guard-errors)
+	pendErr      *types.Var       // ghost: some callee has returned a non-nil error (directive guard-errors)
 }
 
 func newVC(prog *Prog, fn *FuncInfo, mode Mode) *VC {
